@@ -23,9 +23,13 @@ structure StructDef where
   fields : List (String × Ty)
 
 structure Env where
+  /-- struct definitions of the current package (`Main`) -/
   structs : List StructDef
-  /-- `(trait, self type, method, type of the scheme)`: one row per method of an `impl Trait for T` -/
+  /-- `(trait, self type, method, type of the scheme)`: one row per method of an `impl Trait for T`,
+  the rows of the current package first, then those of the dependencies (the order `solve` collects them) -/
   impls : List (String × Ty × String × Ty)
+  /-- the struct tables of the dependency packages -/
+  deps : List (String × List StructDef) := []
 
 /-- the diagnostics of `solve` -/
 inductive SDiag where
@@ -182,6 +186,28 @@ def tyEqL : List Ty → List Ty → Bool
   | _, _ => false
 end
 
+/-- `str::split_once("::")` -/
+def splitOnce : List Char → Option (List Char × List Char)
+  | [] => none
+  | ':' :: ':' :: rest => some ([], rest)
+  | c :: rest =>
+    match splitOnce rest with
+    | some (a, b) => some (c :: a, b)
+    | none => none
+
+/-- `typer::util::resolve_type_name` when the current package is `Main`: the resolved name and the
+struct table of the environment it points to (`Main::X`, `Builtin::X` ↦ `X` here; `Dep::X` ↦ the whole
+name, in the dependency's table; anything else ↦ unchanged, here) -/
+def resolveTypeName (E : Env) (name : String) : String × List StructDef :=
+  if name == "Self" then (name, E.structs)
+  else match splitOnce name.toList with
+    | some (pkg, rest) =>
+      if String.ofList pkg == "Builtin" || String.ofList pkg == "Main" then (String.ofList rest, E.structs)
+      else match lookupAssoc (String.ofList pkg) E.deps with
+        | some ds => (name, ds)
+        | none => (name, E.structs)
+    | none => (name, E.structs)
+
 /-- the impl schemes `get_trait_impl(trait, self_ty, op)` finds (current package; no dependencies) -/
 def lookupImpls (E : Env) (tr : String) (self : Ty) (op : String) : List Ty :=
   (E.impls.filter fun (t, s, m, _) => t == tr && tyEq s self && m == op).map fun (_, _, _, ty) => ty
@@ -211,7 +237,7 @@ def stepC (E : Env) (f : Nat) (s : PassState) : Constraint → Option PassState
     | none => none
     | some (.func (self :: ps) ret) =>
       if isConcrete self then
-        match lookupImpls E tr self op with
+        match lookupImpls E (resolveTypeName E tr).1 self op with
         | [scheme] =>
           let (σ', _, implTy) := instTy s.σ [] scheme
           some { s with σ := σ', pending := s.pending ++ [.eq (.func (self :: ps) ret) implTy], changed := true }
@@ -228,7 +254,7 @@ def stepC (E : Env) (f : Nat) (s : PassState) : Constraint → Option PassState
     | some ne =>
       match decomposeStruct ne with
       | some (name, args) =>
-        match E.structs.find? (fun sd => sd.name == name) with
+        match (resolveTypeName E name).2.find? (fun sd => sd.name == (resolveTypeName E name).1) with
         | none => some (s.diag .structNotFound)
         | some sd =>
           match instantiateField sd args fld with
